@@ -14,6 +14,10 @@ claims = {
          "bodies are renderings of JSON shapes (not arbitrary bytes); encoding/json = abstract codec over the real decoder for concrete text"),
  "C08": ("DESIGN.md §4 C08", "Real Handler/queryHandler closures/Emit/Parse/AsyncMapReduce under every interleaving (stateful search with partial-order reduction at visible operations + happens-before race detector) for batches of <= 2 (quick) / 3 (thorough) operations drawn from an 11-class pool (ok, mutation, exec error, partial, slow, plan error, introspection, syntax error, unknown field, ambiguous, wrong operationName); differential oracle: result i equals what the same operation got when sent alone.",
          "executor is a harness fake (real planner behind a failing wrapper); gqlparser native; engine's model of the Go runtime primitives"),
+ "C09": ("DESIGN.md §4 C09", "K1: Query/queryBatch/fetch/sendRequest against a transport whose answer is arbitrary within the descriptor (transport error; status symbolic in [100,599]; non-JSON; JSON of the wrong shape; array of symbolic length 0..n+2; null / error-carrying / malformed elements): no panic, failure signal implies error, never partial results next to an error. K2: gateway over the real MultiOpQueryer with one downstream answer mutilated (8 kinds x 3 depths x service x call x element, 4 operations): well-formed response, failure signals reported, no value in data that no service returned, next request served normally.",
+         "net/http = harness transport; JSON = abstract codec; gqlparser native; canonical schedule; single mutilation per run"),
+ "C10": ("DESIGN.md §4 C10", "K1: 14 invalid operations (mutations of valid ones, validity decided by the real validator) alone and next to a valid operation in a batch: data null, errors non-empty, the gateway's validation code for unknown/ambiguous operations, and no downstream request other than those of the valid sibling (differential). K2: 1-2 GraphQL errors with symbolic message atoms, extensions (absent/null/{}/members with symbolic values), path, locations, injected in the root or the child step, travel through the real queryBatch -> AsyncMapReduce -> executor -> FormatError -> Emit chain and reach the client with message, extensions and path preserved.",
+         "gqlparser native; net/http = harness transport; JSON = abstract codec; canonical schedule"),
  "C11": ("DESIGN.md §4 C11", "Real Query/queryBatch/fetch with real AsyncMapReduce: all interleavings for N<=2..3 with m symbolic; canonical schedule for N<=7..12, m symbolic; one inductive step of the reducer closure from an arbitrary valid accumulator (any completion order, any chunk count <= nmax); transport failure bits symbolic.",
          "http client = harness transport; JSON = abstract codec; engine's model of channels/WaitGroup/select"),
  "C12": ("DESIGN.md §4 C12", "executeRequests/setIMap/indexMap with <= 3..4 requests whose entity ids are symbolic string atoms (the solver case-splits every equality pattern), two sub-queries, with/without a forwarded client variable and the id-to-type hint: one call per service and level, exactly the distinct (id, sub-query) lookups are sent, every request receives the answer computed for its own entity and step, answers are deep copies; plus the pipeline kernel counting batched calls per service against plan levels for lists up to k.",
